@@ -2,6 +2,9 @@ import BufModel.Parallel
 import BufProofs.Lemmas.ParallelLemmas
 import BufProofs.Props.C14
 import BufProofs.Props.C15
+import BufProofs.Props.C01
+import BufProofs.Props.C08
+import BufProofs.Props.C20
 /-
   C02 — Outputs are deterministic and independent of scheduling and enumeration order.
 
@@ -78,6 +81,33 @@ theorem walk_is_a_function_of_the_map (m₁ m₂ : BufModel.Bucket.Mem)
   subst hkq
   intro k c hk
   rw [hall₁ k c hk, hall₂ k c hk, hsame k hk]
+
+/-- Image build: the image is the same whatever order the (concurrent) compiler returned the
+    compiled files in — every permutation. -/
+theorem image_independent_of_compile_order (t : BufModel.Targeting.TWS) (c : BufModel.Targeting.Compiler)
+    (perm : List BufModel.Path.Str → List BufModel.Path.Str) (h : ∀ l, (perm l).Perm l) :
+    BufModel.Targeting.buildImage t c perm = BufModel.Targeting.buildImage t c id :=
+  BufProofs.C01.sort_canonical t c perm h
+
+/-- Module digests: any enumeration order of the storage walk gives the same digest … -/
+theorem digest_independent_of_walk_order (H : BufModel.Manifest.Bytes → BufModel.Manifest.Digest)
+    (b₁ b₂ : BufModel.Digest.Bucket) (deps : List BufModel.Digest.MDigest)
+    (hok : BufModel.Digest.BucketOK b₁) (hperm : List.Perm b₁ b₂) :
+    BufModel.Digest.moduleB5 H b₁ deps = BufModel.Digest.moduleB5 H b₂ deps :=
+  BufProofs.C08.digest_walk_order H b₁ b₂ deps hok hperm
+
+/-- … and any order in which the dependencies were listed. -/
+theorem digest_independent_of_dep_order (H : BufModel.Manifest.Bytes → BufModel.Manifest.Digest)
+    (b : BufModel.Digest.Bucket) (d₁ d₂ : List BufModel.Digest.MDigest) (h : d₁.Perm d₂) :
+    BufModel.Digest.moduleB5 H b d₁ = BufModel.Digest.moduleB5 H b d₂ :=
+  BufProofs.C08.digest_perm_deps H b d₁ d₂ h
+
+/-- Diagnostics: the printed annotation list does not depend on the order in which rules,
+    plugins or goroutines produced the annotations. -/
+theorem annotations_independent_of_arrival_order (l1 l2 : List BufModel.Annot.Annot)
+    (h : l1.Perm l2) (hk : BufModel.Annot.KeyDet l1) :
+    BufModel.Annot.dedupSort l1 = BufModel.Annot.dedupSort l2 :=
+  BufProofs.C20.dedupSort_perm l1 l2 h hk
 
 -- non-vacuity
 example : verdict true [⟨false, false⟩, ⟨true, false⟩, ⟨false, true⟩] = true := by decide
